@@ -541,7 +541,7 @@ def memory_check(d, bs, n_buffers, width, seed, eol=b"\n", line_lengths=(), all_
     measured too ("large buffer: ..."): those peaks are not judged, they show that the measurement sees a whole
     record when one is held (see discrimination()).
     line_lengths: further OUTPUT line lengths (the routes above write lines of 60) for the streaming routes of part 3;
-    all_rows: each kind of row on its own as well as the scaffold of all three.
+    all_rows: each kind of row on its own (first line length and unwrapped) as well as the scaffold of all three.
     """
     msgs = []
     n = bs * n_buffers + 17
@@ -705,7 +705,10 @@ def memory_check(d, bs, n_buffers, width, seed, eol=b"\n", line_lengths=(), all_
         mixed = [["F", "long", 2, n - 1, 1], ["G", n // 2, "scaffold"], ["F", "long", 2, n - 1, -1]]
         for L in line_lengths:
             how = "unwrapped output (line length 10**9)" if L >= ONE_LINE else f"output lines of {L}"
-            for label, specs in ([*jobs, ("streaming a scaffold of a long forward fragment, a long gap and a long reverse fragment", mixed)] if all_rows else [("streaming a scaffold of a long forward fragment, a long gap and a long reverse fragment", mixed)]):
+            kinds = [("streaming a scaffold of a long forward fragment, a long gap and a long reverse fragment", mixed)]
+            if all_rows and (L == line_lengths[0] or L >= ONE_LINE):
+                kinds = [*jobs, *kinds]
+            for label, specs in kinds:
                 want = hashlib.sha256(G.expected_fasta([("m", G.apply_rows(seqs, specs))], L)).hexdigest()
                 fi = new_index(bs)
                 fi.index = idx
